@@ -17,7 +17,7 @@ for p in props:
         checks.append({
             "property_id": pid,
             "quick_cmd": f"/verif/bin/hv check -prop {pid} -tier quick",
-            "thorough_cmd": f"/verif/bin/hv check -prop {pid} -tier thorough",
+            "thorough_cmd": f"python3 /verif/tools/thorough.py {pid}",
             "evidence_file": f"/verif/evidence/{pid}.json",
             "replay_cmd_template": "/verif/bin/hv explain {path}",
             "engine": "hv",
